@@ -134,6 +134,16 @@ def extAttrs : (fuel : Nat) → XCtx → Except YErr (XCtx × List YStmt)
         (extAttrs f c2).map fun (c, l) =>
           (c, if cx.pfx.isNone then YStmt.mk cx.name .none (some c1.value) LYS_YIN_ATTR [] :: l else l)
 
+/-- the repair of F340 in `yin_parse_element_generic` (`fixed` = `Generated.yinArgRemap`, read off the source): the argument element
+    was consumed with its parent, so a later `value` under `error-message` is the `value` statement, and a stray `text` is unknown -/
+def remapArg (fixed : Bool) : MKw → MKw
+  | .argValue => if fixed then .kw sValue else .argValue
+  | .argText => if fixed then .none else .argText
+  | m => m
+
+@[simp] theorem remapArg_kw (b : Bool) (k : Bytes) : remapArg b (.kw k) = .kw k := rfl
+@[simp] theorem remapArg_ext (b : Bool) : remapArg b .ext = .ext := rfl
+
 def mkwToYKw : MKw → YKw
   | .ext => .ext
   | .kw k => .kw k
@@ -146,7 +156,7 @@ def parseGeneric : (fuel : Nat) → (parent : YKw) → XCtx → Except YErr (XCt
   | 0, _, _ => .error .invalid
   | f + 1, parent, cx =>
     let name := qualName cx.pfx cx.name
-    let mk := matchKeyword cx.ns cx.name cx.pfx parent
+    let mk := remapArg yinArgRemap (matchKeyword cx.ns cx.name cx.pfx parent)
     let head : Except YErr (XCtx × Option Bytes × Nat × List YStmt) :=
       match mk with
       | .none => .error .invalid
